@@ -178,8 +178,11 @@ class NPShim(object):
     def inner(self, a, b):
         a = asobj(a)
         b = asobj(b)
-        assert a.ndim == 1 and b.ndim == 1
-        return _dot(a, b)
+        if a.ndim == 1 and b.ndim == 1:
+            return _dot(a, b)
+        if a.ndim == 0 or b.ndim == 0:
+            return a * b
+        return _tensordot(a, b, axes=([a.ndim - 1], [b.ndim - 1]))
 
     def outer(self, a, b):
         a = asobj(a).reshape(-1)
